@@ -576,6 +576,19 @@ def drive_minimize(meta):
 # ------------------------------------------------------------------------------------------
 # case builders
 # ------------------------------------------------------------------------------------------
+def forms_agree(obs, obs2, tight):
+    """two float evaluations of the same CG recurrences (other summation order, other solve for P): iterates 0..2 must agree tightly;
+    later ones only to 1e-3, because float CG amplifies rounding-level differences by ~1e3 per iteration (same schedule as the model
+    comparison, Model/C16_Solve.v iter_tol); tolerances are relative to the scale of the iterate"""
+    for j, (a, b) in enumerate(zip(obs, obs2)):
+        a, b = np.asarray(a, dtype=float), np.asarray(b, dtype=float)
+        tol = tight if j <= 2 else 1e-3
+        sc = max(float(np.max(np.abs(b))) if b.size else 0.0, float(np.max(np.abs(np.asarray(obs2[0])))) if len(obs2[0]) else 0.0)
+        if not np.all(np.abs(a - b) <= tol * (sc if sc > 0 else 1.0) + (0 if sc > 0 else tol)):
+            return False
+    return True
+
+
 def case_cgls_iters(meta):
     K = meta["K"]
     obs = [drive_cgls(meta, j, 0.0)[0] for j in range(K + 1)]
@@ -587,7 +600,7 @@ def case_cgls_iters(meta):
     if meta["form"] != "dense":
         m2 = dict(meta, form="dense")
         obs2 = [drive_cgls(m2, j, 0.0)[0] for j in range(K + 1)]
-        same = all(np.allclose(a, b, rtol=1e-12, atol=1e-12) for a, b in zip(obs, obs2))
+        same = forms_agree(obs, obs2, 1e-12)
         if not same:
             fail, sig = "iterates of form %s differ from the dense-matrix form: %s vs %s" % (meta["form"], obs, obs2), SIG["cgls_forms"]
         expr += " && %s" % cbool(same)
@@ -620,7 +633,7 @@ def case_pcgls_iters(meta):
         obs2 = [drive_pcgls(m2, j, 0.0)[0] for j in range(K + 1)]
         # 1e-6: different but equivalent float evaluations of P^-1 (explicit inverse vs sparse solve) on a system whose
         # preconditioned condition number may reach ~1e7 legitimately differ by ~1e-9 near convergence
-        same = all(np.allclose(a, b, rtol=1e-6, atol=1e-6) for a, b in zip(obs, obs2))
+        same = forms_agree(obs, obs2, 1e-6)
         if not same:
             fail, sig = "iterates of form %s/%s differ from the dense explicit form: %s vs %s" % (meta["form"], meta["pinv"], obs, obs2), SIG["pcgls_forms"]
         expr += " && %s" % cbool(same)
